@@ -153,8 +153,13 @@ def run(ctx):
 
     # ---------------- R4  AM.remove preceded by the complete MO sweep
     R = ktloops.remove_mapping_analysis(ctx, K)
-    ck.ob("C01-R4", MOD + "remove_mapping", "sweep-shape", not R.problems, detail="; ".join(R.problems)[:300] or None)
-    ck.ob("C01-R4", MOD + "remove_mapping", "active_mappings.remove(i)-once,after-the-complete-mapped_output-sweep", R.am_removed_after_sweep)
+    pr = R.problems + R.role_problems["used"]
+    ck.ob("C01-R4", MOD + "remove_mapping", "sweep-shape", not pr, detail="; ".join(pr)[:300] or None)
+    ck.ob("C01-R4", MOD + "remove_mapping", "active_mappings.remove(i)-exactly-once-on-every-path,never-inside-the-mapped_output-sweep", R.am_removal is not None)
+    # a key may stay in mapped_output_keys only when a mapping that REMAINS outputs it: the still-used scan must not
+    # count the mapping being removed (skip index i while it is still in the list, or scan everything once it is gone)
+    ck.ob("C01-R4", MOD + "remove_mapping", "still-used-scan-never-counts-the-mapping-being-removed", R.covers("used") in ("exact", "subset"),
+          detail="removal %s the sweep, scan %s index i" % (R.am_removal, "skips" if R.excl.get("used") else "does not skip"))
     for val, outcome, site in R.rows:
         want = ktloops.remove_mapping_spec(val)
         leaves = outcome in ("release", "handover")
@@ -184,7 +189,39 @@ def run(ctx):
                     ck.ob("C01-R5", np_.path, "registration-only-on-the-true-edge-of-is_supported(m.from,input_pressed,_,k)", ok, site=e.span)
     ck.floor("C01-R5", "add_new_mapping-call-sites-on-paths", n_call, 1)
     rets = [fx for fx in K.path_fx(np_) if fx.tag == "fn" and fx.path.outcome[0] == "return"]
-    okip = bool(rets) and all(any(e.kind == "ADD" and e.lst == "IP" and e.key == k for e in fx.effects) for fx in rets)
-    ck.ob("C01-R5", np_.path, "pressed-key-joins-input_pressed-on-every-return-path", okip)
+    # the pressed key joins input_pressed on every return path -- except on paths that did nothing a later release
+    # would have to undo (no registration, no insertion into a held-key list, no press emitted): ignoring a press
+    # altogether cannot leave anything held
+    pure = mir.Evaluator(np_, {})._is_pure
+    def harmless(e):
+        if e.kind == "CALL":
+            return pure(e.key) or e.key.endswith("StepResult::empty")
+        if e.kind == "RETAIN":
+            return e.lst == "AB"
+        if e.kind == "STORE":
+            return e.lst in ("RT", "AT") and isinstance(e.key, tuple) and "None" in show(e.key)
+        return False
+    okip = bool(rets)
+    n_quiet = 0
+    why = None
+    for fx in rets:
+        if any(e.kind == "ADD" and e.lst == "IP" and e.key == k for e in fx.effects):
+            continue
+        n_quiet += 1
+        bad = [e for e in fx.effects if not harmless(e)]
+        if bad:
+            okip, why = False, "return path without input_pressed_keys.push(k) has the effect %s" % (bad[0],)
+            continue
+        for e in fx.path.events:
+            if e.kind == "loopexit":
+                ex = np_.exhaustion_exit(e.a)
+                if ex is None or e.b != ex[1]:
+                    okip, why = False, "return path without input_pressed_keys.push(k) leaves loop bb%d through a break" % e.a
+                    continue
+                for lfx in K.path_fx(np_):
+                    if lfx.tag == "L%d" % e.a and lfx.path.outcome[0] == "backedge" and [x for x in lfx.effects if not harmless(x)]:
+                        okip, why = False, "return path without input_pressed_keys.push(k) runs loop bb%d, whose continuing paths have effects" % e.a
+    ck.ob("C01-R5", np_.path, "pressed-key-joins-input_pressed-on-every-return-path(or-the-press-was-ignored-without-any-effect)", okip, detail=why)
+    ck.analysed["newly_press_return_paths_without_effect"] = n_quiet
     ck.explanation = ("Sites: %d pass_through insertions, %d mapped_output insertions, %d removals from input_pressed (%s), remove_mapping "
                       "table rows %d." % (n_r1, n_r3, n_up, sorted(x[len(MOD):] for x in seqs), len(R.rows)))
